@@ -41,6 +41,11 @@ pub enum End {
     ClientBadChannel,
     /// the server application calls RenetServer::disconnect(client 0) and, in the same tick, transport.disconnect_all
     ServerKickThenDisconnectAll,
+    /// the server application broadcasts a message that exceeds the reliable channel's memory budget: the message layer
+    /// disconnects every client (SendChannelError) inside broadcast_message
+    ServerBroadcastOverBudget,
+    /// the same through broadcast_message_except(client 1): only client 0 is disconnected
+    ServerBroadcastExceptOverBudget,
 }
 
 #[derive(Clone, Copy, Debug, PartialEq, Eq)]
@@ -645,6 +650,20 @@ impl<'c> World<'c> {
                         ));
                     }
                 }
+                End::ServerBroadcastOverBudget | End::ServerBroadcastExceptOverBudget => {
+                    let big = vec![0x5Au8; 5 * 1024 * 1024 + 1];
+                    let rs = &mut self.rs;
+                    let except = self.clients[1].id;
+                    let all = self.cfg.end == End::ServerBroadcastOverBudget;
+                    guard("broadcast over budget", || {
+                        if all {
+                            rs.broadcast_message(DefaultChannel::ReliableOrdered, big)
+                        } else {
+                            rs.broadcast_message_except(except, DefaultChannel::ReliableOrdered, big)
+                        }
+                    })?;
+                    self.end_initiated_tick = Some(tick);
+                }
                 End::ServerKickThenDisconnectAll => {
                     let id = self.clients[0].id;
                     self.rs.disconnect(id);
@@ -691,8 +710,8 @@ impl<'c> World<'c> {
         }
         let affected: Vec<usize> = match cfg.end {
             End::None => vec![],
-            End::ClientRenetDisconnect | End::ClientTransportDisconnect | End::ServerRenetDisconnect => vec![0],
-            End::ServerDisconnectAll | End::ServerKickThenDisconnectAll => (0..self.clients.len()).collect(),
+            End::ClientRenetDisconnect | End::ClientTransportDisconnect | End::ServerRenetDisconnect | End::ServerBroadcastExceptOverBudget => vec![0],
+            End::ServerDisconnectAll | End::ServerKickThenDisconnectAll | End::ServerBroadcastOverBudget => (0..self.clients.len()).collect(),
             End::ClientSilent | End::ClientBadChannel => vec![1],
             End::DuplicateId => vec![],
         };
@@ -846,6 +865,8 @@ pub fn scenarios(tier: Tier) -> Vec<UdpScenario> {
         ("both clients present tokens for the same client id", End::DuplicateId),
         ("client 1 sends on a channel the server lacks", End::ClientBadChannel),
         ("RenetServer::disconnect(client 0) then transport.disconnect_all in one tick", End::ServerKickThenDisconnectAll),
+        ("broadcast_message over the channel budget", End::ServerBroadcastOverBudget),
+        ("broadcast_message_except(client 1) over the channel budget", End::ServerBroadcastExceptOverBudget),
     ] {
         v.push(UdpScenario {
             cfg: UdpCfg {
@@ -859,7 +880,7 @@ pub fn scenarios(tier: Tier) -> Vec<UdpScenario> {
                 // time-out 2 s = 8 ticks, plus resend and teardown
                 tail: 14,
                 fates: all.clone(),
-                local_host: end != End::ServerDisconnectAll && end != End::ServerKickThenDisconnectAll,
+                local_host: end != End::ServerDisconnectAll && end != End::ServerKickThenDisconnectAll && end != End::ServerBroadcastOverBudget,
                 dead_first_addr: false,
                 server_hitch: None,
                 empty_flood: None,
